@@ -67,8 +67,9 @@ inductive Kind where
   | bound (cell size : Nat) (readable writable : Bool)
   /-- `fixed_value<T,V>` -/
   | fixed (val : Bytes) (readable : Bool)
-  /-- `cstring_wrapper` (cstring_value, fixed_blob_value) -/
-  | cstring (val : Bytes)
+  /-- `cstring_wrapper` (cstring_value, fixed_blob_value); `noRead` = the no_read_access option of
+      the characteristic (`cstring_wrapper::value_impl` never looks at it: has_read_access = true) -/
+  | cstring (val : Bytes) (noRead : Bool)
   /-- handler value (`value_handler_base`): read / write handler kind 0 none, 1 without offset,
       2 blob; `noRead` = the no_read_access option (only used for the declared properties) -/
   | handler (rk wk cell : Nat) (noRead : Bool)
@@ -151,7 +152,7 @@ def charProps (hasRead hasWrite wwr owwr ntf ind : Bool) : Nat :=
 def valueAccessFlags : Kind → Bool × Bool
   | .bound _ _ r w => (r, w)
   | .fixed _ r => (r, false)
-  | .cstring _ => (true, false)
+  | .cstring _ _ => (true, false)
   | .handler rk wk _ noRead => (rk != 0 && !noRead, wk != 0)
   | _ => (false, false)
 
@@ -193,7 +194,7 @@ def readAccess (H : Handlers) (srv : Server) (cells : List Bytes) (c : Conn) (id
       | some e => (.err e, [])
       | none => if !readable then (.err 0x02, []) else readMem val val.length off bufSize
   -- src: characteristic_value.hpp:cstring_wrapper::value_impl::characteristic_value_access
-  | .cstring val =>
+  | .cstring val _ =>
       match secCheck (requiresEnc srv.enc a) c with
       | some e => (.err e, [])
       | none => readMem val val.length off bufSize
@@ -247,7 +248,7 @@ def writeAccess (H : Handlers) (srv : Server) (cells : List Bytes) (c : Conn) (a
       match secCheck (requiresEnc srv.enc a) c with
       | some e => (.err e, cells, c.cccd)
       | none => if !readable then (.err 0x02, cells, c.cccd) else (.err 0x03, cells, c.cccd)
-  | .cstring _ =>
+  | .cstring _ _ =>
       match secCheck (requiresEnc srv.enc a) c with
       | some e => (.err e, cells, c.cccd)
       | none => (.err 0x03, cells, c.cccd)
@@ -492,7 +493,7 @@ def handleFindInfo (srv : Server) (cap : Nat) (op : UInt8) (p : Bytes) : Resp :=
       let only16 := a0.uuid != 1
       let tuple := if only16 then 4 else 18
       if cap < 2 then .oobWrite
-      else match infoLoop srv only16 tuple (firstIndex srv e) (cap - 2) srv.attrs.length (s - 1) [] with
+      else match infoLoop srv only16 tuple (some (lastHandleIndex srv e)) (cap - 2) srv.attrs.length (s - 1) [] with
         | none => .assertFail
         | some acc => emit cap (0x05 :: (if only16 then 0x01 else 0x02) :: acc)
 
@@ -536,10 +537,12 @@ structure Prim where
   ads     : Nat
 
 -- src: server.hpp:collect_primary_services::each + service.hpp:read_primary_service_response
-def primLoop (startIdx endHandle room : Nat) : List (Nat × Nat × Bytes) → Prim → Prim
+-- (`endIdx` = `last_handle_index( ending_handle )` since repo fix 4b0715c; before that fix the
+--  ending *handle* was compared with attribute *indices*)
+def primLoop (startIdx endIdx room : Nat) : List (Nat × Nat × Bytes) → Prim → Prim
   | [], st => st
   | (i, n, u) :: rest, st =>
-    if !st.stopped ∧ startIdx ≤ i ∧ i ≤ endHandle then
+    if !st.stopped ∧ startIdx ≤ i ∧ i ≤ endIdx then
       let s128 := u.length = 16
       let st1 : Prim :=
         if st.first then { st with is128 := s128, first := false, ads := if s128 then 20 else 6 }
@@ -550,8 +553,8 @@ def primLoop (startIdx endHandle room : Nat) : List (Nat × Nat × Bytes) → Pr
         if st1.is128 = s128 ∧ room - st1.acc.length ≥ ads then
           { st1 with acc := st1.acc ++ le16 (i + 1) ++ le16 (i + n) ++ u.take (room - st1.acc.length - 4) }
         else st1
-      primLoop startIdx endHandle room rest st2
-    else primLoop startIdx endHandle room rest st
+      primLoop startIdx endIdx room rest st2
+    else primLoop startIdx endIdx room rest st
 
 -- src: server.hpp:handle_read_by_group_type_request
 def handleReadByGroup (srv : Server) (cap : Nat) (op : UInt8) (p : Bytes) : Resp :=
@@ -564,7 +567,7 @@ def handleReadByGroup (srv : Server) (cap : Nat) (op : UInt8) (p : Bytes) : Resp
       if p.length = 21 ∨ t ≠ 0x2800 then errorResponse cap op 0x10 s
       else if cap < 2 then .oobWrite
       else
-        let st := primLoop (s - 1) e (cap - 2) (servicesFrom srv.attrs 0) ⟨[], false, true, true, 0⟩
+        let st := primLoop (s - 1) (lastHandleIndex srv e) (cap - 2) (servicesFrom srv.attrs 0) ⟨[], false, true, true, 0⟩
         if st.acc.isEmpty then errorResponse cap op 0x0A s
         else emit cap (0x11 :: UInt8.ofNat st.ads :: st.acc)
 
@@ -670,6 +673,45 @@ def l2capOutput (H : Handlers) (srv : Server) (cells : List Bytes) (c : Conn) (i
 def l2capOutputUnfixed (H : Handlers) (srv : Server) (cells : List Bytes) (c : Conn) (ind : Bool) (pos : Nat)
     (outSize : Nat) : Resp :=
   l2capOutput H { srv with mtu := outSize } cells { c with clientMtu := outSize } ind pos outSize
+
+/-! ## well-formedness of a table / a state (what the C++ type system guarantees by construction;
+  the driver checks both on every table dumped from the real templates) -/
+
+/-- attribute `idx` of the table is well-formed w.r.t. the table: an attribute whose 16 bit type is
+    `internal_128bit_uuid` directly follows a characteristic declaration holding a 16 byte UUID
+    (src: characteristic.hpp: only `characteristic_value_declaration_parameter` yields that type) -/
+def attrTableOk (srv : Server) (idx : Nat) (a : Attr) : Bool :=
+  if a.uuid = 1 then
+    decide (1 ≤ idx) &&
+      (match srv.attrs[idx - 1]? with
+       | some ⟨_, .charDecl uuid _ _ _ _, _, _⟩ => decide (uuid.length = 16)
+       | _ => false)
+  else true
+
+/-- well-formed table (decidable): `max_mtu_size ≥ 23`, `attrTableOk` for every attribute,
+    `find_notification_data_by_index` yields existing attributes -/
+def TableWF (srv : Server) : Bool :=
+  decide (23 ≤ srv.mtu) &&
+  (List.range srv.attrs.length).all (fun i => match srv.attrs[i]? with
+    | some a => attrTableOk srv i a
+    | none => true) &&
+  srv.ntf.all (fun i => decide (i < srv.attrs.length))
+
+/-- the memory behind attribute `a` exists: `lens` = sizes of the memory cells, `ncccd` = number of
+    CCCD entries of the connection -/
+def attrStateOk (lens : List Nat) (ncccd : Nat) (a : Attr) : Bool :=
+  match a.kind with
+  | .bound cell size _ _ => (match lens[cell]? with
+      | some n => decide (size ≤ n)
+      | none => false)
+  | .cccd pos => decide (pos < ncccd)
+  | _ => true
+
+/-- well-formed state (decidable): a bound value's memory is at least `sizeof(T)` bytes, every CCCD
+    position indexes the connection's configuration array (`number_of_client_configs` entries);
+    depends on the memory only through the sizes of the cells -/
+def StateWF (srv : Server) (cells : List Bytes) (c : Conn) : Bool :=
+  srv.attrs.all (attrStateOk (cells.map List.length) c.cccd.length) && decide (srv.ntf.length ≤ c.cccd.length)
 
 /-! ## the handlers of the harness (harness/attaccess/servers.hpp h_read_blob … h_write) -/
 
